@@ -1,6 +1,6 @@
 ---------------------------- MODULE TemplateVM ----------------------------
 (* C03 — the recursion guard of template expansion (templ/evaluate.pyx flatten,
-   templ/nodes.pyx Template.flatten).
+   templ/nodes.pyx Template.flatten) and the size limit on template arguments.
 
        flatten(node):  text -> append
                        recursion_count > recursion_limit -> raise TemplateRecursion
@@ -11,53 +11,93 @@
                                re-raise while recursion_count > 2, else drop what this node
                                has produced and carry on
                        finally: recursion_count -= 1
+       Template.flatten:       MemoryLimitError -> an inline error, the article goes on
+       ArgumentList.get:       an argument is flattened lazily, in the caller's frame, into a
+                               buffer of its own, the first time the callee uses it; the value
+                               is cached; a value longer than 256 KiB raises MemoryLimitError
 
-   The machine below runs that guard over EVERY call graph on NT templates: a universe maps each
-   template to a short body of  "a" (text) | "P" ({{{1}}}, a node without children) |
-   "C1".."C3" (a call without arguments; a callee above NT does not exist).  Self- and mutual
-   recursion are ordinary universes here.  The parser collapses a one-element body to that
-   element and merges adjacent text, so bodies are kept in that canonical form.
+   The machine runs that over EVERY call graph on NT templates: a universe maps each template to a
+   short body of  "a" (text) | "P" ({{{1}}}) | "C1".."C3" (a call without arguments; a callee
+   above NT does not exist) and, with Growth, "D1".."D3" (a call that passes {{{1}}}{{{1}}}: the
+   argument DOUBLES on every level — the way a wiki page buys unbounded memory from a recursive
+   template); pages may then start the recursion with a block argument ("S1": {{T1|A}}, A being
+   BlockSize characters of text).  Self- and mutual recursion are ordinary universes here.  The
+   parser collapses a one-element body to that element and merges adjacent text, so bodies are
+   kept in that canonical form.
 
-   State: the stack of active flatten frames, the counter, the output produced so far, the
-   pending exception, and a log of (callee, counter) at every template lookup — which the harness
-   compares with the real Expander's get_parsed_template calls (P-REPLAY).
+   State: the stack of active flatten frames, the counter, the stack of output buffers (the
+   article and one per argument being evaluated), the pending exception, and a log of
+   (callee, counter) at every template lookup — which the harness compares with the real
+   Expander's get_parsed_template calls (P-REPLAY).
 
-   Checked by TLC: depth never exceeds Limit+1, the counter equals the depth, an exception is
-   swallowed only at depth <= 2 and never leaves the machine, and — liveness, under weak
-   fairness — every expansion terminates with an empty stack.                                  *)
+   Checked by TLC: depth never exceeds Limit+1, the counter equals the depth, TemplateRecursion is
+   swallowed only at depth <= 2, no exception leaves the machine, no argument value exceeds the
+   cap, and — liveness, under weak fairness — every expansion terminates with an empty stack.   *)
 EXTENDS Naturals, Sequences, FiniteSets, TLC, Json
 
 CONSTANTS NT,            \* templates in the universe (1..3)
           MaxBody,       \* items per template body
           Limit,         \* recursion_limit
+          Growth,        \* TRUE: doubling calls and block arguments are part of the alphabet
+          BlockSize,     \* characters in the block "A"
+          Cap,           \* 262144: the longest argument value
           SwallowDepth,  \* 2 in the reference; mechanism switch for non-vacuity
           Decrement,     \* TRUE in the reference: the counter is decremented when a frame is left by an exception
+          CapByName,     \* TRUE in the reference: the cap also guards arguments looked up by name ({{{1}}})
           Emit
 
-VARIABLES univ, page, stack, count, out, exc, log, started, escaped
-vars == <<univ, page, stack, count, out, exc, log, started, escaped>>
+VARIABLES univ, page, stack, count, bufs, exc, log, started, escaped
+vars == <<univ, page, stack, count, bufs, exc, log, started, escaped>>
 
-Items == {"a", "P", "C1", "C2", "C3"}
-Callee(it) == CASE it = "C1" -> 1 [] it = "C2" -> 2 [] it = "C3" -> 3 [] OTHER -> 0
-IsCall(it) == it \in {"C1", "C2", "C3"}
+Calls  == {"C1", "C2", "C3"}
+Dbls   == {"D1", "D2", "D3"}
+Starts == {"S1", "S2"}
+Items == {"a", "P"} \cup Calls \cup (IF Growth THEN {"D1", "D2"} ELSE {})
+Callee(it) == CASE it \in {"C1", "D1", "S1"} -> 1 [] it \in {"C2", "D2", "S2"} -> 2 [] it \in {"C3", "D3"} -> 3 [] OTHER -> 0
+IsCall(it) == it \in Calls \cup Dbls \cup Starts
+ArgOf(it)  == IF it \in Dbls THEN "dbl" ELSE IF it \in Starts THEN "block" ELSE "none"
 Canonical(b) == \A i \in 1..(Len(b) - 1) : ~(b[i] = "a" /\ b[i + 1] = "a")
-Bodies(n) == {b \in UNION {[1..k -> Items] : k \in 0..n} : Canonical(b)}
-Pages == {b \in Bodies(3) : Len(b) >= 1 /\ \A i \in 1..Len(b) : b[i] \in {"a", "C1", "C2"}}
+BodiesOver(S, n) == {b \in UNION {[1..k -> S] : k \in 0..n} : Canonical(b)}
+TemplateItems == IF Growth THEN (IF NT = 1 THEN {"a", "P", "C1", "D1"} ELSE {"a", "P", "C1", "C2", "D1", "D2"}) ELSE {"a", "P", "C1", "C2", "C3"}
+PageItems == IF Growth THEN (IF NT = 1 THEN {"a", "C1", "S1"} ELSE {"a", "C1", "S1", "S2"}) ELSE {"a", "C1", "C2"}
+Bodies == BodiesOver(TemplateItems, MaxBody)
+Pages  == {b \in BodiesOver(PageItems, IF Growth THEN 2 ELSE 3) : Len(b) >= 1}
+
+\* size in characters of a value made of atoms; "E" is an inline error message
+AtomSize(x) == CASE x = "A" -> BlockSize [] x = "P" -> 7 [] x = "E" -> 70 [] OTHER -> 1
+RECURSIVE Size(_)
+Size(v) == IF v = <<>> THEN 0 ELSE AtomSize(Head(v)) + Size(Tail(v))
 
 \* what flatten is called with: a single item, or a sequence of >= 2 items (or the empty page)
 Item(it) == [k |-> "item", it |-> it, body |-> <<>>]
 SeqO(b)  == [k |-> "seq", it |-> "", body |-> b]
 ObjOf(b) == IF Len(b) = 1 THEN Item(b[1]) ELSE SeqO(b)
+ArgExpr  == <<"P", "P">>          \* {{{1}}}{{{1}}}
 
 Exists(t) == t \in 1..NT
 Top == stack[Len(stack)]
 Below == SubSeq(stack, 1, Len(stack) - 1)
+D == Len(stack)
 
-\* frames: a sequence being iterated, a template call, a parameter node
-SeqF(b)  == [k |-> "seq", body |-> b, pc |-> 1, t |-> 0, st |-> 0, mark |-> Len(out)]
-CallF(t) == [k |-> "call", body |-> <<>>, pc |-> 1, t |-> t, st |-> 0, mark |-> Len(out)]
-ParF     == [k |-> "param", body |-> <<>>, pc |-> 1, t |-> 0, st |-> 0, mark |-> Len(out)]
-FrameFor(o) == IF o.k = "seq" THEN SeqF(o.body) ELSE IF IsCall(o.it) THEN CallF(Callee(o.it)) ELSE ParF
+(* frames.  env: index of the call frame whose arguments are in scope (0: none).  buf: the buffer
+   the frame writes to, mark: its length when the frame was entered.  A call frame carries its
+   argument: arg in {"none","block","dbl"}, cached / val once the callee has used it.  A sequence
+   frame with forarg = c evaluates the argument of call frame c into a buffer of its own.        *)
+Frame(k, body, t, env, buf, arg, forarg) ==
+  [k |-> k, body |-> body, pc |-> 1, t |-> t, st |-> 0, env |-> env, buf |-> buf,
+   mark |-> IF buf > Len(bufs) THEN 0 ELSE Len(bufs[buf]),
+   arg |-> arg, cached |-> FALSE, val |-> <<>>, forarg |-> forarg]
+
+\* the scope and buffer a new child of the running frame gets
+CurEnv == IF ~started \/ stack = <<>> THEN 0
+          ELSE IF Top.k = "call" THEN D              \* the body of a template sees that call's argument
+          ELSE Top.env
+CurBuf == IF ~started \/ stack = <<>> THEN 1 ELSE Top.buf
+
+\* does the parameter node on top have to evaluate its argument first?
+Binding(e) == IF e = 0 THEN "none" ELSE stack[e].arg
+NeedsEval == started /\ stack # <<>> /\ Top.k = "param" /\ Top.st = 0
+             /\ Binding(Top.env) = "dbl" /\ ~stack[Top.env].cached
 
 \* the object the running code flattens next, and the stack once the parent has noted that
 HasPending ==
@@ -65,85 +105,136 @@ HasPending ==
   ELSE IF stack = <<>> THEN FALSE
   ELSE \/ Top.k = "seq" /\ Top.pc <= Len(Top.body)
        \/ Top.k = "call" /\ Top.st = 0 /\ Exists(Top.t) /\ univ[Top.t] # <<>>
+       \/ NeedsEval
 Pending ==
   IF ~started THEN ObjOf(page)
   ELSE IF Top.k = "seq" THEN Item(Top.body[Top.pc])
-  ELSE ObjOf(univ[Top.t])
+  ELSE IF Top.k = "call" THEN ObjOf(univ[Top.t])
+  ELSE SeqO(ArgExpr)
 Advanced ==
   IF ~started THEN stack
   ELSE IF Top.k = "seq" THEN Append(Below, [Top EXCEPT !.pc = @ + 1])
-  ELSE Append(Below, [Top EXCEPT !.st = 1])
+  ELSE IF Top.k = "call" THEN Append(Below, [Top EXCEPT !.st = 1])
+  ELSE Append(Below, [Top EXCEPT !.st = 2])            \* the parameter waits for its value
 IsText(o) == o.k = "item" /\ o.it = "a"
+ForArg == started /\ stack # <<>> /\ Top.k = "param"   \* the pending object is an argument expression
 
-Init == /\ univ \in [1..NT -> Bodies(MaxBody)]
+NewFrame(o) ==
+  IF ForArg THEN Frame("seq", o.body, 0, stack[Top.env].env, Len(bufs) + 1, "none", Top.env)
+  ELSE IF o.k = "seq" THEN Frame("seq", o.body, 0, CurEnv, CurBuf, "none", 0)
+  ELSE IF IsCall(o.it) THEN Frame("call", <<>>, Callee(o.it), CurEnv, CurBuf, ArgOf(o.it), 0)
+  ELSE Frame("param", <<>>, 0, CurEnv, CurBuf, "none", 0)
+
+Put(b, v) == [bufs EXCEPT ![b] = @ \o v]
+
+Init == /\ univ \in [1..NT -> Bodies]
         /\ page \in Pages
-        /\ stack = <<>> /\ count = 0 /\ out = <<>> /\ exc = FALSE /\ log = <<>>
+        /\ stack = <<>> /\ count = 0 /\ bufs = <<<<>>>> /\ exc = "none" /\ log = <<>>
         /\ started = FALSE /\ escaped = FALSE
 
 \* flatten(str)
-Text == /\ ~exc /\ HasPending /\ IsText(Pending)
-        /\ out' = Append(out, "a")
+Text == /\ exc = "none" /\ HasPending /\ IsText(Pending)
+        /\ bufs' = Put(CurBuf, <<"a">>)
         /\ stack' = Advanced /\ started' = TRUE
         /\ UNCHANGED <<univ, page, count, exc, log, escaped>>
 
-\* flatten(node) below the limit: a new frame
-Enter == /\ ~exc /\ HasPending /\ ~IsText(Pending) /\ count <= Limit
-         /\ stack' = Append(Advanced, FrameFor(Pending))
+\* flatten(node) below the limit: a new frame (and a new buffer for an argument)
+Enter == /\ exc = "none" /\ HasPending /\ ~IsText(Pending) /\ count <= Limit
+         /\ bufs' = IF ForArg THEN Append(bufs, <<>>) ELSE bufs
+         /\ stack' = Append(Advanced, NewFrame(Pending))
          /\ count' = count + 1 /\ started' = TRUE
          /\ log' = IF Pending.k = "item" /\ IsCall(Pending.it) THEN Append(log, <<Callee(Pending.it), count + 1>>) ELSE log
-         /\ UNCHANGED <<univ, page, out, exc, escaped>>
+         /\ UNCHANGED <<univ, page, exc, escaped>>
 
 \* flatten(node) above the limit
-Raise == /\ ~exc /\ HasPending /\ ~IsText(Pending) /\ count > Limit
-         /\ exc' = TRUE /\ stack' = Advanced /\ started' = TRUE
-         /\ UNCHANGED <<univ, page, count, out, log, escaped>>
+Raise == /\ exc = "none" /\ HasPending /\ ~IsText(Pending) /\ count > Limit
+         /\ exc' = "rec" /\ stack' = Advanced /\ started' = TRUE
+         /\ UNCHANGED <<univ, page, count, bufs, log, escaped>>
 
-\* a parameter without binding and default stays literal
-ParamOut == /\ ~exc /\ started /\ stack # <<>> /\ Top.k = "param" /\ Top.st = 0
-            /\ out' = Append(out, "P")
+\* a parameter: its binding, else the literal {{{1}}}
+ParamOut == /\ exc = "none" /\ started /\ stack # <<>> /\ Top.k = "param" /\ Top.st = 0 /\ ~NeedsEval
+            /\ bufs' = Put(Top.buf, CASE Binding(Top.env) = "block" -> <<"A">>
+                                      [] Binding(Top.env) = "dbl"   -> stack[Top.env].val
+                                      [] OTHER -> <<"P">>)
             /\ stack' = Append(Below, [Top EXCEPT !.st = 1])
             /\ UNCHANGED <<univ, page, count, exc, log, started, escaped>>
 
 Complete == /\ started /\ stack # <<>> /\ ~HasPending
             /\ (Top.k = "param" => Top.st = 1)
-Leave == /\ ~exc /\ Complete
+Leave == /\ exc = "none" /\ Complete /\ Top.forarg = 0
          /\ stack' = Below /\ count' = count - 1
-         /\ UNCHANGED <<univ, page, out, exc, log, started, escaped>>
+         /\ UNCHANGED <<univ, page, bufs, exc, log, started, escaped>>
 
-\* the exception passes a frame deeper than SwallowDepth ('finally' still decrements)
-Unwind == /\ exc /\ stack # <<>> /\ count > SwallowDepth
-          /\ stack' = Below
+\* the argument has been flattened: within the cap it is cached in the call frame and handed to
+\* the waiting parameter, beyond the cap ArgumentList.get raises MemoryLimitError
+LeaveArg == /\ exc = "none" /\ Complete /\ Top.forarg # 0
+            /\ LET v == bufs[Top.buf]
+                   c == Top.forarg
+                   p == Len(stack) - 1 IN          \* the waiting parameter frame
+               /\ count' = count - 1
+               /\ IF CapByName /\ Size(v) > Cap
+                  THEN /\ exc' = "mem"
+                       /\ bufs' = SubSeq(bufs, 1, Len(bufs) - 1)
+                       /\ stack' = Below
+                  ELSE /\ exc' = exc
+                       /\ bufs' = SubSeq(Put(stack[p].buf, v), 1, Len(bufs) - 1)
+                       /\ stack' = [i \in 1..p |-> IF i = c THEN [stack[i] EXCEPT !.cached = TRUE, !.val = v]
+                                                   ELSE IF i = p THEN [stack[i] EXCEPT !.st = 1]
+                                                   ELSE stack[i]]
+            /\ UNCHANGED <<univ, page, log, started, escaped>>
+
+PopBufs == IF Top.forarg # 0 THEN SubSeq(bufs, 1, Len(bufs) - 1) ELSE bufs
+
+\* TemplateRecursion passes a frame deeper than SwallowDepth ('finally' still decrements)
+Unwind == /\ exc = "rec" /\ stack # <<>> /\ count > SwallowDepth
+          /\ stack' = Below /\ bufs' = PopBufs
           /\ count' = IF Decrement THEN count - 1 ELSE count
-          /\ UNCHANGED <<univ, page, out, exc, log, started, escaped>>
+          /\ UNCHANGED <<univ, page, exc, log, started, escaped>>
 
 \* at depth <= SwallowDepth the frame drops its output and returns normally
-Swallow == /\ exc /\ stack # <<>> /\ count <= SwallowDepth
-           /\ out' = SubSeq(out, 1, Top.mark)
-           /\ exc' = FALSE
+Swallow == /\ exc = "rec" /\ stack # <<>> /\ count <= SwallowDepth
+           /\ bufs' = [PopBufs EXCEPT ![Top.buf] = SubSeq(@, 1, Top.mark)]
+           /\ exc' = "none"
            /\ stack' = Below /\ count' = count - 1
            /\ UNCHANGED <<univ, page, log, started, escaped>>
 
-\* the exception leaves expandTemplates (must be unreachable)
-Escape == /\ exc /\ stack = <<>> /\ ~escaped
-          /\ escaped' = TRUE
-          /\ UNCHANGED <<univ, page, stack, count, out, exc, log, started>>
+\* MemoryLimitError passes every frame that is not a template call ...
+UnwindMem == /\ exc = "mem" /\ stack # <<>> /\ Top.k # "call"
+             /\ stack' = Below /\ bufs' = PopBufs /\ count' = count - 1
+             /\ UNCHANGED <<univ, page, exc, log, started, escaped>>
 
-Finished == started /\ stack = <<>> /\ ~exc
-Next == Text \/ Enter \/ Raise \/ ParamOut \/ Leave \/ Unwind \/ Swallow \/ Escape
+\* ... and the enclosing template call reports it inline and returns normally
+CatchMem == /\ exc = "mem" /\ stack # <<>> /\ Top.k = "call"
+            /\ bufs' = Put(Top.buf, <<"E">>)
+            /\ stack' = Append(Below, [Top EXCEPT !.st = 1])
+            /\ exc' = "none"
+            /\ UNCHANGED <<univ, page, count, log, started, escaped>>
+
+\* an exception leaves expandTemplates (must be unreachable)
+Escape == /\ exc # "none" /\ stack = <<>> /\ ~escaped
+          /\ escaped' = TRUE
+          /\ UNCHANGED <<univ, page, stack, count, bufs, exc, log, started>>
+
+Finished == started /\ stack = <<>> /\ exc = "none"
+Next == Text \/ Enter \/ Raise \/ ParamOut \/ Leave \/ LeaveArg \/ Unwind \/ Swallow \/ UnwindMem \/ CatchMem \/ Escape
 Spec == Init /\ [][Next]_vars /\ WF_vars(Next)
 
 -----------------------------------------------------------------------------
 DepthBound   == Len(stack) <= Limit + 1
 CountIsDepth == Decrement => count = Len(stack)
-NoEscape     == ~escaped /\ ~(exc /\ stack = <<>>)
-MarksOK      == \A i \in 1..Len(stack) : stack[i].mark <= Len(out)
-\* an exception is only ever cleared by a frame at depth <= 2
-SwallowShallow == [][(exc /\ ~exc') => count <= 2]_vars
+NoEscape     == ~escaped /\ ~(exc # "none" /\ stack = <<>>)
+BufsOK       == /\ Len(bufs) >= 1
+                /\ \A i \in 1..Len(stack) : stack[i].buf <= Len(bufs) /\ stack[i].mark <= Len(bufs[stack[i].buf])
+                /\ Len(bufs) = 1 + Cardinality({i \in 1..Len(stack) : stack[i].forarg # 0})
+\* no argument value ever held exceeds the cap
+ArgBound     == \A i \in 1..Len(stack) : stack[i].cached => Size(stack[i].val) <= Cap
+\* a TemplateRecursion is only ever cleared by a frame at depth <= 2
+SwallowShallow == [][(exc = "rec" /\ exc' = "none") => count <= 2]_vars
 Terminates == <>Finished
-\* the counter is back to 0 when the expansion is over
-CounterRestored == Finished => count = 0
+\* the counter is back to 0 and only the article's buffer is left when the expansion is over
+CounterRestored == Finished => count = 0 /\ Len(bufs) = 1
 
 EmitRun ==
   (Emit /\ Finished) =>
-    PrintT("@@" \o ToJson([univ |-> univ, page |-> page, limit |-> Limit, out |-> out, log |-> log]))
+    PrintT("@@" \o ToJson([univ |-> univ, page |-> page, limit |-> Limit, out |-> bufs[1], log |-> log]))
 =============================================================================
